@@ -90,6 +90,7 @@ func run(c *hk.Ctx) {
 	}
 	stdioStress(c)
 	getStreamStress(c)
+	resumeStress(c)
 	legacySSEStress(c)
 }
 
@@ -326,6 +327,73 @@ func getStreamStress(c *hk.Ctx) {
 	if bad > 0 || len(evs) != okCount {
 		c.Violate(hk.Violation{Fingerprint: "frames:get-stream:interleaved-or-lost-events", What: "events on the GET stream do not reassemble to the messages written",
 			Input: map[string]any{"writers": workers, "per_writer": per}, Observed: map[string]any{"sent": okCount, "read": len(evs), "unparsable": bad, "first": first}})
+	}
+}
+
+// resumeStress: the client keeps reopening its GET stream with a Last-Event-ID header (the server then writes a
+// `stream/resumed` event on the new stream) while other goroutines keep sending notifications to the session.
+func resumeStress(c *hk.Ctx) {
+	f := hk.NewFixture(hk.SrvCfg{Mode: "stateful", Get: true, PostSSE: true})
+	defer f.Close()
+	r := f.Post(nil, `{"jsonrpc":"2.0","id":1,"method":"initialize","params":{"protocolVersion":"2025-03-26","capabilities":{},"clientInfo":{"name":"v","version":"1"}}}`)
+	sid := r.Header.Get("Mcp-Session-Id")
+	stop := make(chan struct{})
+	var wg sync.WaitGroup
+	for w := 0; w < 6; w++ {
+		wg.Add(1)
+		go func(w int) {
+			defer wg.Done()
+			for i := 0; ; i++ {
+				select {
+				case <-stop:
+					return
+				default:
+				}
+				f.S.SendNotification(sid, "notifications/message", map[string]interface{}{"level": "info", "data": map[string]interface{}{"w": w, "i": i, "pad": strings.Repeat("r", 200+i%1500)}})
+			}
+		}(w)
+	}
+	reopens := 120
+	if c.Thorough() {
+		reopens = 1500
+	}
+	bad, total := 0, 0
+	first := ""
+	var prev *hk.Stream
+	for k := 0; k < reopens; k++ {
+		status, _, st, err := f.OpenStream(map[string]string{"Mcp-Session-Id": sid, "Last-Event-ID": fmt.Sprintf("evt-1-%d", k+1)})
+		if err != nil || status != 200 {
+			continue
+		}
+		if prev != nil {
+			evs := prev.Snapshot()
+			prev.CloseByClient()
+			b, fb := parseEventsJSON(evs)
+			bad += b
+			total += len(evs)
+			if first == "" {
+				first = fb
+			}
+		}
+		prev = st
+		st.WaitEvents(3, 200*time.Millisecond)
+	}
+	close(stop)
+	wg.Wait()
+	if prev != nil {
+		evs := prev.Snapshot()
+		prev.CloseByClient()
+		b, fb := parseEventsJSON(evs)
+		bad += b
+		total += len(evs)
+		if first == "" {
+			first = fb
+		}
+	}
+	c.Count("resume-stress", total > 0, map[string]any{"kind": "resume-stress", "reopens": reopens, "events_read": total, "unparsable": bad}, "resume-stress")
+	if bad > 0 {
+		c.Violate(hk.Violation{Fingerprint: "frames:get-stream:resumption-event-interleaved", What: "an event on a resumed GET stream is not one JSON message (the stream/resumed event interleaved with a concurrent notification)",
+			Input: map[string]any{"reopens_with_last_event_id": reopens, "concurrent_senders": 6}, Observed: map[string]any{"unparsable": bad, "first": first}})
 	}
 }
 
